@@ -3,6 +3,7 @@ package batchrun
 import (
 	"fmt"
 	"strings"
+	"unicode"
 	"unicode/utf8"
 
 	"pgregory.net/rapid"
@@ -307,6 +308,34 @@ func checkC15(x *X, c *Case, strict bool) *Outcome {
 		_, w := utf8.DecodeRune(rest)
 		inputs = append(inputs, rest[:w])
 		rest = rest[w:]
+	}
+	// the class's own members and their neighbours: each character and range end, the runes
+	// just outside, the other case of each (at most 160, spread evenly over a wide class)
+	var derived []rune
+	seenR := map[rune]bool{}
+	addR := func(rs ...rune) {
+		for _, r := range rs {
+			if r >= 0 && r <= 0x10FFFF && !(r >= 0xD800 && r <= 0xDFFF) && !seenR[r] {
+				seenR[r] = true
+				derived = append(derived, r)
+			}
+		}
+	}
+	for _, ch := range cls.Chars {
+		addR(ch, ch-1, ch+1, unicode.ToUpper(ch), unicode.ToLower(ch))
+	}
+	for i := 0; i+1 < len(cls.Ranges); i += 2 {
+		lo, hi := cls.Ranges[i], cls.Ranges[i+1]
+		addR(lo, hi, lo-1, hi+1, (lo+hi)/2, unicode.ToUpper(lo), unicode.ToLower(hi))
+	}
+	step := 1 + len(derived)/160
+	for i := 0; i < len(derived); i += step {
+		if derived[i] >= 128 {
+			inputs = append(inputs, utf8.AppendRune(nil, derived[i]))
+		}
+	}
+	if len(cls.Chars)+len(cls.Ranges)/2+len(cls.UClasses) >= 64 {
+		o.Tags = append(o.Tags, "wide_class_64_or_more_members")
 	}
 	inputs = append(inputs, []byte{}, []byte{0xff}, []byte{0x80}, []byte{0xc3}, []byte{0xe6, 0x97}, []byte{0xed, 0xa0, 0x80})
 	excluded := 0
